@@ -25,10 +25,13 @@ def run(cmd, **kw):
 res = {}
 r1 = run([PY, os.path.join(out, "demo.py")], env=env, cwd=out)
 res["demo_with_change_exit"] = r1.returncode
-run(["git", "-C", wt, "stash"])
+# (git stash is shared between worktrees of one repository: reverse-apply the diff instead)
+diff0 = run(["git", "-C", wt, "diff", "--", "src"]).stdout
+open("/tmp/try_seed.diff", "w").write(diff0)
+run(["git", "-C", wt, "apply", "-R", "/tmp/try_seed.diff"])
 r0 = run([PY, os.path.join(out, "demo.py")], env=env, cwd=out)
 res["demo_without_change_exit"] = r0.returncode
-run(["git", "-C", wt, "stash", "pop"])
+run(["git", "-C", wt, "apply", "/tmp/try_seed.diff"])
 rt = run([PY, "-m", "pytest", "-q", "-p", "no:cacheprovider", "--timeout=900", "-x"], env=env, cwd=wt)
 res["tests_tail"] = rt.stdout.strip().splitlines()[-1] if rt.stdout.strip() else rt.stderr[-200:]
 res["tests_exit"] = rt.returncode
